@@ -63,6 +63,9 @@ var units = []unit{
 		{"src/params", "", "DropletPrecisionToDivisor"},
 		{"src/params", "", "DropletPrecisionCheck"},
 	}},
+	{File: "VerifyParams", Fns: []fnSpec{ // C11: validated range of the soft-rule parameters
+		{"src/params", "VerifyTxn", "Validate"},
+	}},
 }
 
 const modPrefix = "github.com/skycoin/skycoin/"
@@ -993,6 +996,11 @@ type manifestEntry struct {
 	SrcSHA string `json:"src_sha256"`
 }
 
+func loadPkgs(repo string, pats []string) ([]*packages.Package, error) {
+	cfg := &packages.Config{Mode: packages.NeedName | packages.NeedSyntax | packages.NeedTypes | packages.NeedTypesInfo | packages.NeedFiles | packages.NeedImports, Dir: repo}
+	return packages.Load(cfg, pats...)
+}
+
 func main() {
 	repo := flag.String("repo", "/repo", "repository root")
 	out := flag.String("out", "", "output directory for Gen/*.v")
@@ -1018,8 +1026,26 @@ func main() {
 			want[u] = true
 		}
 	}
+	all := len(want) == 0
+	// close the selection under the units' imports
+	for changed := true; changed; {
+		changed = false
+		for _, u := range units {
+			if want[u.File] {
+				for _, im := range u.Imports {
+					if !want[im] {
+						want[im] = true
+						changed = true
+					}
+				}
+			}
+		}
+	}
 	pkgSet := map[string]bool{}
 	for _, u := range units {
+		if !all && !want[u.File] {
+			continue
+		}
 		for _, f := range u.Fns {
 			pkgSet["./"+f.Pkg] = true
 		}
@@ -1029,11 +1055,14 @@ func main() {
 		pats = append(pats, p)
 	}
 	sort.Strings(pats)
-	cfg := &packages.Config{Mode: packages.NeedName | packages.NeedSyntax | packages.NeedTypes | packages.NeedTypesInfo | packages.NeedFiles | packages.NeedImports | packages.NeedDeps, Dir: *repo}
-	pkgs, err := packages.Load(cfg, pats...)
-	if err != nil {
-		fmt.Fprintln(os.Stderr, "load:", err)
-		os.Exit(1)
+	var pkgs []*packages.Package
+	if len(pats) > 0 {
+		var err error
+		pkgs, err = loadPkgs(*repo, pats)
+		if err != nil {
+			fmt.Fprintln(os.Stderr, "load:", err)
+			os.Exit(1)
+		}
 	}
 	byPath := map[string]*packages.Package{}
 	for _, p := range pkgs {
@@ -1046,6 +1075,9 @@ func main() {
 	known := map[string]string{}
 	var man []manifestEntry
 	for _, u := range units {
+		if !all && !want[u.File] {
+			continue
+		}
 		var b strings.Builder
 		fmt.Fprintf(&b, "(* GENERATED by /verif/translator from /repo — do not edit. *)\nFrom Sky Require Import Base.Uint.\n")
 		for _, im := range u.Imports {
@@ -1078,9 +1110,6 @@ func main() {
 			fmt.Fprintf(&b, "Definition %s%s :=\n  %s.\n\n", coqName, ps, indent(o.Code, "  "))
 			man = append(man, manifestEntry{Coq: "Gen." + u.File + "." + coqName, File: strings.TrimPrefix(o.Pos, *repo+"/"), Pos: o.Pos, SrcSHA: fmt.Sprintf("%x", sha256.Sum256([]byte(o.Src)))})
 		}
-		if len(want) > 0 && !want[u.File] {
-			continue
-		}
 		ch, err := writeIfChanged(filepath.Join(*out, u.File+".v"), []byte(b.String()))
 		if err != nil {
 			fmt.Fprintln(os.Stderr, err)
@@ -1090,7 +1119,7 @@ func main() {
 			fmt.Println("regenerated", u.File+".v")
 		}
 	}
-	if err := genTables(*repo, *out, pkgs); err != nil {
+	if err := genTables(*repo, *out, all, want, &man); err != nil {
 		fmt.Fprintln(os.Stderr, "TRANSLATION-BREAK:", err)
 		os.Exit(3)
 	}
